@@ -259,8 +259,8 @@ func BuildOps(r *fw.Rand, n int) []Op {
 			switch r.Intn(6) {
 			case 0:
 				content = digits(r, 1+r.Intn(200))
-				if r.Intn(6) == 0 {
-					content = digits(r, 1300+r.Intn(1500)) // more than 512 data codewords (version 15 and up)
+				if r.Intn(2) == 0 {
+					content = digits(r, 1300+r.Intn(900)) // more than 512 data codewords (version 15 and up)
 				}
 			case 1:
 				content = from(r, "ABCDEFGHIJKLMNOPQRSTUVWXYZ $%*+-./:0123456789", 1+r.Intn(120))
